@@ -99,7 +99,9 @@ def line_of(e):
         return "addnet %s %s %s" % (tok(e["net"]), ",".join(e["names"]) or "[]", ts)
     if op == "load":
         return "load " + " ".join(jtok(e["json"]))
-    return op  # reset / reload
+    if op == "bind":
+        return "new"       # the model's fresh constructor (Config.lean has no notion of a path: a write never
+    return op              # changes the object, `write` has no model line) ; reset / reload / write
 
 
 def jtok(v):
@@ -132,6 +134,28 @@ def canon_nets(d):
 # --------------------------------------------------------------------------
 # the implementation under test, driven from outside
 # --------------------------------------------------------------------------
+
+def impl_entry(exc):
+    """name of the outermost function of the code under test (scratch copy of simulaqron) on the traceback of
+    `exc`, None if the traceback never enters it.  The harness calls the implementation, never the other way round
+    (the scripted probe aside), so an exception with such a frame ESCAPED from the implementation: where the called
+    operation must succeed that is a violation (`<function>:raises:<Class>`), never a crash of the harness;
+    an exception without one is a bug of the harness and must stay loud."""
+    import traceback
+    root = os.path.join(core.scratch_repo(), "simulaqron") + os.sep
+    for fr in traceback.extract_tb(exc.__traceback__):
+        if fr.filename.startswith(root) or (os.sep + "simulaqron" + os.sep) in fr.filename and "harness" not in fr.filename:
+            return fr.name if fr.name != "<module>" else os.path.basename(fr.filename)
+    return None
+
+
+def raises_key(exc):
+    """violation key for an exception that escaped from the implementation, or None (harness bug: re-raise)"""
+    if isinstance(exc, core.MachineryError):
+        return None
+    fn = impl_entry(exc)
+    return None if fn is None else "%s:raises:%s" % (fn, type(exc).__name__)
+
 
 class Impl:
     def __init__(self, mods, path):
@@ -178,6 +202,18 @@ class Impl:
                     self.c = self.m["N"](file_path=self.path)
                 except Exception:
                     return "loadError"
+            elif op == "bind":
+                # a fresh LONG-LIVED constructor bound to the (not yet existing) file: every later write goes to the
+                # path the object is bound to
+                if os.path.exists(self.path):
+                    os.remove(self.path)
+                self.c = self.m["N"](file_path=self.path)
+            elif op == "write":
+                # the object writes itself and lives on (bound: to its own file, no argument)
+                if c.file_path is None:
+                    c.write_to_file(self.path)
+                else:
+                    c.write_to_file()
             else:
                 raise core.MachineryError("unknown edit %r" % (e,))
         except ValueError as x:
@@ -197,12 +233,14 @@ class Impl:
 
     def reread(self):
         """write the file, read it back: (fresh constructor or None, parsed json or None)"""
+        self.reread_exc = None
         try:
             self.c.write_to_file(self.path)
             with open(self.path) as f:
                 raw = json.load(f)
             return self.m["N"](file_path=self.path), raw
-        except Exception:
+        except Exception as x:
+            self.reread_exc = x
             return None, None
 
     def observe(self, outcome):
@@ -253,7 +291,13 @@ def oracle_state(impl, last_edit):
     """list of (key, what) violations of C16 in the current state of the real constructor"""
     bad = []
     m = impl.m
-    d = impl.c.to_dict()
+    try:
+        d = impl.c.to_dict()
+    except Exception as x:
+        k = raises_key(x)
+        if k is None:
+            raise
+        return [(k, "to_dict() raised %r" % (x,))]
     # 1. endpoints pairwise distinct, ports are integers
     seen = {}
     for net, nd in d.items():
@@ -269,8 +313,15 @@ def oracle_state(impl, last_edit):
     # 3. write + read reproduces the configuration exactly
     c2, raw = impl.reread()
     if c2 is None:
-        bad.append(("roundtrip:raises", "write_to_file / read_from_file raised"))
+        x = getattr(impl, "reread_exc", None)
+        bad.append((raises_key(x) or "roundtrip:raises", "write_to_file(path) + fresh constructor(path) raised %r" % (x,)))
         return bad
+    if isinstance(raw, dict) and set(raw) != set(d):
+        # the file is exactly the object's networks (Config.lean: reload/write semantics)
+        extra, missing = sorted(set(raw) - set(d)), sorted(set(d) - set(raw))
+        bad.append(("file:network-set-differs", "after write_to_file the file holds network(s) %r the object does not have%s"
+                    % (extra, " and lacks %r" % missing if missing else "") if extra else
+                    "after write_to_file the file lacks network(s) %r of the object" % missing))
     if c2.to_dict() != d or raw != d:
         bad.append(("roundtrip:differs", "to_dict() %r, reread %r" % (d, c2.to_dict())))
     # 2. a removed node is gone (memory and file)
@@ -283,8 +334,14 @@ def oracle_state(impl, last_edit):
                 t = dd[net]["topology"]
                 if t is not None and (x in t or any(x in l for l in t.values())):
                     bad.append(("remove_node:left-in-topology", "%s still in the topology of %s (%s): %r" % (x, net, where, t)))
-    if last_edit and last_edit["op"] == "rmnet" and (last_edit["net"] or "default") in d:
-        bad.append(("remove_network:still-there", "network %s still present" % last_edit["net"]))
+    if last_edit and last_edit["op"] == "rmnet":
+        for where, dd in (("memory", d), ("file", raw)):
+            if (last_edit["net"] or "default") in dd:
+                bad.append(("remove_network:still-there", "network %s still present (%s)" % (last_edit["net"], where)))
+    if last_edit and last_edit["op"] == "reset":
+        for where, dd in (("memory", d), ("file", raw)):
+            if set(dd) - {"default"}:
+                bad.append(("reset:other-networks-left", "after reset the networks are %r (%s)" % (list(dd), where)))
     # 4. ids: a bijection, two mutually inverse lookups, the same for every participant
     if any(k == "endpoints:port-not-int" for k, _ in bad):
         return bad  # Host() cannot even be built
@@ -367,33 +424,53 @@ def oracle_state(impl, last_edit):
 # --------------------------------------------------------------------------
 
 def execute(mods, path, script, want_lines=True, full_ids=True):
-    """run a script on a fresh constructor.  Returns (violations, lines, expects, stats)"""
-    impl = Impl(mods, path)
-    mods["N"]._check_socket_is_free = staticmethod(impl.probe)
-    mods["settings"]._config["network_config_file"] = path
-    viol, lines, expect = [], ["new"], [impl.observe("ok")]
+    """run a script on a fresh constructor.  Returns (violations, lines, expects, stats).  An exception that escapes
+    from the implementation in an operation that must succeed (to_dict, write_to_file, the observations, the
+    lookups) is a violation `<function>:raises:<Class>` and ends the script; it never crashes the harness."""
+    viol, lines, expect = [], [], []
     stats = {"max_nodes": 0, "refusals": 0, "outcomes": []}
-    for idx, e in enumerate(script):
-        out = impl.apply(e)
-        stats["outcomes"].append(out)
-        if out != "ok":
-            stats["refusals"] += 1
-        if e["op"] == "env":
-            lines.append(line_of(e))
-            expect.append("ok")
-            continue
-        for key, what in oracle_state(impl, e):
-            viol.append((key, "after edit %d (%s -> %s): %s" % (idx, line_of(e), out, what), idx))
-        d = impl.c.to_dict()
-        stats["max_nodes"] = max([stats["max_nodes"]] + [len(nd["nodes"]) for nd in d.values()])
-        if want_lines:
-            lines.append(line_of(e))
-            expect.append(impl.observe(out))
-            nets = NETS[1:] if (full_ids or idx == len(script) - 1) else [e.get("net") or "default"]
-            impl.c.write_to_file(path)
-            for net in nets:
-                lines.append("ids %s" % tok(net))
-                expect.append(impl.ids(net))
+    idx, e = -1, None
+    try:
+        impl = Impl(mods, path)
+        mods["N"]._check_socket_is_free = staticmethod(impl.probe)
+        mods["settings"]._config["network_config_file"] = path
+        lines, expect = ["new"], [impl.observe("ok")]
+        for idx, e in enumerate(script):
+            out = impl.apply(e)
+            stats["outcomes"].append(out)
+            if out != "ok":
+                stats["refusals"] += 1
+            if e["op"] == "env":
+                lines.append(line_of(e))
+                expect.append("ok")
+                continue
+            if e["op"] == "write" and out != "ok":
+                viol.append(("write_to_file:raises:" + out.split(":")[-1], "after edit %d (write -> %s): write_to_file of a "
+                             "constructor in a regular state must succeed" % (idx, out), idx))
+            for key, what in oracle_state(impl, e):
+                viol.append((key, "after edit %d (%s -> %s): %s" % (idx, line_of(e), out, what), idx))
+            d = impl.c.to_dict()
+            stats["max_nodes"] = max([stats["max_nodes"]] + [len(nd["nodes"]) for nd in d.values()])
+            if want_lines and e["op"] != "write":
+                lines.append(line_of(e))
+                expect.append(impl.observe(out))
+                if e["op"] == "bind":         # the model's `new` starts from the default probe: say again what ours is
+                    lines.append(line_of({"op": "env", "kind": impl.env[0], "ports": impl.env[1]}))
+                    expect.append("ok")
+                nets = NETS[1:] if (full_ids or idx == len(script) - 1) else [e.get("net") or "default"]
+                impl.c.write_to_file(path)
+                for net in nets:
+                    lines.append("ids %s" % tok(net))
+                    expect.append(impl.ids(net))
+    except Exception as x:
+        key = raises_key(x)
+        if key is None:
+            raise
+        viol.append((key, "after edit %d (%s): %r escaped from the implementation" % (
+            idx, line_of(e) if e else "new", x), max(idx, 0)))
+        # the model lines of this script stay comparable up to the last completed edit
+        n = min(len(lines), len(expect))
+        lines, expect = lines[:n], expect[:n]
     return viol, lines, expect, stats
 
 
@@ -510,8 +587,10 @@ def gen_edit(rng):
         return {"op": "rmnet", "net": net}
     if k < 0.81:
         return {"op": "reset"}
-    if k < 0.91:
+    if k < 0.88:
         return {"op": "reload"}
+    if k < 0.91:
+        return {"op": "write"}
     return gen_env(rng)
 
 
@@ -519,13 +598,33 @@ def gen_script(rng, max_edits):
     s = []
     if rng.random() < 0.7:
         s.append(gen_env(rng))
+    if rng.random() < 0.5:
+        s.append({"op": "bind"})      # one long-lived object bound to its file for the whole script
     n = rng.randint(3, max_edits)
     while sum(1 for e in s if e["op"] != "env") < n:
         s.append(gen_edit(rng))
     return s
 
 
+A3 = [[None, None]] * 3
 FIXED_SCRIPTS = [
+    # one long-lived constructor bound to its file: add in a new network; write; remove_network / reset; write;
+    # fresh read — the file is exactly the object's networks (a removed network must not come back)
+    [{"op": "bind"}, {"op": "addnode", "name": "Alice", "net": "n1", "socks": A3, "nb": None}, {"op": "write"},
+     {"op": "rmnet", "net": "n1"}, {"op": "write"}, {"op": "reload"}],
+    [{"op": "bind"}, {"op": "addnode", "name": "Alice", "net": "n1", "socks": A3, "nb": None},
+     {"op": "addnode", "name": "Bob", "net": "n1", "socks": A3, "nb": ["Alice"]}, {"op": "write"},
+     {"op": "reset"}, {"op": "write"}, {"op": "reload"}],
+    [{"op": "bind"}, {"op": "reset"}, {"op": "write"}, {"op": "addnet", "net": "n2", "names": ["Eve", "Bob"], "topo": None},
+     {"op": "write"}, {"op": "rmnet", "net": "n2"}, {"op": "addnode", "name": "Eve", "net": None, "socks": A3, "nb": None},
+     {"op": "write"}, {"op": "reload"}],
+    # the same on an object that was loaded from a file (bound by `reload`)
+    [{"op": "addnode", "name": "Alice", "net": None, "socks": A3, "nb": None}, {"op": "reload"},
+     {"op": "addnode", "name": "Bob", "net": "n1", "socks": A3, "nb": None}, {"op": "write"}, {"op": "rmnet", "net": "n1"},
+     {"op": "write"}, {"op": "rmnet", "net": None}, {"op": "write"}, {"op": "reload"}],
+    # a hand-made broken file sits at the bound path: the next write simply replaces it
+    [{"op": "bind"}, {"op": "addnode", "name": "Alice", "net": None, "socks": A3, "nb": None}, {"op": "write"},
+     {"op": "load", "json": 7}, {"op": "write"}, {"op": "reload"}],
     # F9: removal must clean the topology
     [{"op": "addnode", "name": "Alice", "net": None, "socks": [[None, None]] * 3, "nb": []},
      {"op": "addnode", "name": "Bob", "net": None, "socks": [[None, None]] * 3, "nb": ["Alice"]},
@@ -583,8 +682,10 @@ def run(ctx):
     res.rule = ("random edit scripts of 3..%d edits (add/remove node, add/remove network, reset, reload, load of a hand-made "
                 "valid or broken file, probe changes) "
                 "over networks default/n1/n2, 6 names, 4 host strings, 11 explicit ports, scripted bind probe incl. "
-                "exhausted ranges; plus 4 fixed scripts; non-trivial = some network reached >= 2 nodes and the script "
-                "has a removal or a refusal; distinct by script" % ctx.scale(12, 30))
+                "exhausted ranges; plus 10 fixed scripts; non-trivial = some network reached >= 2 nodes and the script "
+                "has a removal or a refusal; distinct by script; half of the scripts run on ONE long-lived constructor bound "
+                "to its file (`bind`), with explicit `write` edits (object writes itself and lives on) besides the write + "
+                "fresh read the oracle performs after every edit; 5 directed long-lived-object histories" % ctx.scale(12, 30))
     if mods["get_name"] is None:
         res.notes.append("host_config.get_node_name_from_net_config missing: id->name compared only through SimulaQronNetworkInfo")
     rng = ctx.rng
